@@ -297,11 +297,11 @@ impl FileSpec {
     // handles collisions by appending ".restart-<number>" to the infix, if necessary
     pub(crate) fn collision_free_infix_for_rotated_file(&self, infix: &str) -> String {
         let uncompressed_files = self.list_of_files(
-            &InfixFilter::Equls(infix.to_string()),
+            &InfixFilter::EqulsOrRestart(infix.to_string()),
             self.o_suffix.as_deref(),
         );
         let compressed_files =
-            self.list_of_files(&InfixFilter::Equls(infix.to_string()), Some("gz"));
+            self.list_of_files(&InfixFilter::EqulsOrRestart(infix.to_string()), Some("gz"));
 
         let restart_siblings = uncompressed_files
             .into_iter()
@@ -416,6 +416,9 @@ impl FileSpec {
         }
     }
 
+    // Selects the files that follow the naming pattern completely:
+    // <fixed name part>_<infix>[.restart-<number>][.<suffix>], where the infix passes the filter;
+    // with o_suffix = Some("gz") the compressed files are selected, which have an additional .gz
     pub(crate) fn filter_files(
         &self,
         files: &[PathBuf],
@@ -426,37 +429,70 @@ impl FileSpec {
         files
             .iter()
             .filter(|path| {
-                // if suffix is specified, it must match
-                if let Some(suffix) = o_suffix {
-                    path.extension().is_some_and(|ext| {
-                        let s = ext.to_string_lossy();
-                        s == suffix
-                    })
-                } else {
+                let Some(file_name) = path.file_name().map(|s| s.to_string_lossy()) else {
+                    return false;
+                };
+                let mut rest: &str = &file_name;
+
+                // suffix
+                let strip_suffix = |name: &'_ str, suffix: &str| -> Option<usize> {
+                    name.strip_suffix(suffix)
+                        .and_then(|s| s.strip_suffix('.'))
+                        .map(str::len)
+                };
+                if o_suffix == Some("gz") && self.o_suffix.as_deref() != Some("gz") {
+                    // compressed files: the configured suffix, if any, is followed by .gz
+                    match strip_suffix(rest, "gz") {
+                        Some(len) => rest = &rest[..len],
+                        None => return false,
+                    }
+                    if let Some(suffix) = &self.o_suffix {
+                        match strip_suffix(rest, suffix) {
+                            Some(len) => rest = &rest[..len],
+                            None => return false,
+                        }
+                    }
+                } else if let Some(suffix) = o_suffix {
+                    // if suffix is specified, it must match
+                    match strip_suffix(rest, suffix) {
+                        Some(len) => rest = &rest[..len],
+                        None => return false,
+                    }
+                } else if rest.ends_with(".gz") {
                     // without suffix: all files but the compressed ones
-                    path.extension().map_or(true, |ext| ext != "gz")
+                    return false;
                 }
-            })
-            .filter(|path| {
-                // infix filter must pass
-                let stem = path.file_stem().unwrap(/* CANNOT FAIL*/).to_string_lossy();
-                let maybe_infix = if fixed_name_part.is_empty() {
-                    &stem[..]
-                } else {
-                    // the fixed name part must be followed by an underscore
-                    match stem
+
+                // the fixed name part must be followed by an underscore
+                if !fixed_name_part.is_empty() {
+                    match rest
                         .strip_prefix(fixed_name_part.as_str())
                         .and_then(|s| s.strip_prefix('_'))
                     {
-                        Some(s) => s,
+                        Some(s) => rest = s,
                         None => return false,
                     }
-                };
-                if maybe_infix.is_empty() {
-                    return false;
                 }
-                let end = maybe_infix.find('.').unwrap_or(maybe_infix.len());
-                infix_filter.filter_infix(&maybe_infix[..end])
+
+                // the infix can only be followed by a restart extension
+                let (infix, o_extension) = match rest.split_once('.') {
+                    Some((infix, extension)) => (infix, Some(extension)),
+                    None => (rest, None),
+                };
+                if let Some(extension) = o_extension {
+                    if !infix_filter.allows_restart_extension() {
+                        return false;
+                    }
+                    match extension.strip_prefix("restart-") {
+                        Some(number)
+                            if number.len() >= 4
+                                && number.chars().all(|c| c.is_ascii_digit()) => {}
+                        _ => return false,
+                    }
+                }
+
+                // infix filter must pass
+                !infix.is_empty() && infix_filter.filter_infix(infix)
             })
             .map(PathBuf::clone)
             .collect::<Vec<PathBuf>>()
